@@ -196,6 +196,33 @@ Proof.
   intros H. unfold end_game, Inv. destruct (fp s); autorewrite with proj; exact H.
 Qed.
 
+Lemma start_st_inv d s : d_okb d = true -> Inv d s -> Inv d (start_st d s).
+Proof.
+  intros Hok HI. unfold start_st. destruct (ingame s).
+  - destruct (game_full s); auto. apply add_player_inv; auto.
+  - destruct (fp s).
+    + apply add_player_inv; auto.
+    + destruct (affordable d s); auto. apply add_player_inv; auto.
+Qed.
+
+Lemma iter_inv d f : (forall s, Inv d s -> Inv d (f s)) -> forall n s, Inv d s -> Inv d (iter_st n f s).
+Proof. intros Hf. induction n as [|n IH]; intros s HI; cbn [iter_st]; auto. Qed.
+
+Lemma paid_join_inv d s : d_okb d = true -> Inv d s -> Inv d (paid_join d s).
+Proof.
+  intros Hok [H0 Hmax]. apply d_okb_elim in Hok as (Hupg & _).
+  unfold paid_join, Inv. autorewrite with proj. split; [lia|]. intros Hp. specialize (Hmax Hp). lia.
+Qed.
+
+Lemma burst_st_inv d s n : d_okb d = true -> Inv d s -> Inv d (burst_st d s n).
+Proof.
+  intros Hok HI. unfold burst_st. destruct n as [|n]; auto.
+  destruct (ingame s); [|apply start_st_inv; auto].
+  destruct (game_full s); auto. destruct (fp s).
+  - apply iter_inv; auto.
+  - destruct (affordable d s); auto. apply iter_inv; auto. intros x Hx. apply paid_join_inv; auto.
+Qed.
+
 Lemma apply_op_inv d s o : d_okb d = true -> Inv d s -> Inv d (apply_op d s o).
 Proof.
   intros Hok HI. pose proof (d_okb_elim d Hok) as (Hupg & HW & Hm & Ht & Hc & He).
@@ -209,11 +236,7 @@ Proof.
   - destruct (fp s); auto. destruct (nth_error (d_ev_units d) j) eqn:E; auto.
     pose proof (add_units_inv d s z false Hok (nonneg_nth_error _ _ _ He E) HI) as H.
     unfold Inv in *. autorewrite with proj. exact H.
-  - destruct (ingame s).
-    + destruct (game_full s); auto. apply add_player_inv; auto.
-    + destruct (fp s).
-      * apply add_player_inv; auto.
-      * destruct (affordable d s); auto. apply add_player_inv; auto.
+  - apply start_st_inv; auto.
   - destruct (negb (ingame s)); auto. destruct (cpl s <? npl s); [exact HI|].
     destruct (cball s <? d_bpg d); [|apply end_game_inv; auto].
     destruct ((cball s + 1 =? 2) && negb (fp s) && negb (flag s)); unfold Inv; autorewrite with proj; exact HI.
@@ -224,6 +247,7 @@ Proof.
   - exact HI.
   - unfold Inv, clear_all. autorewrite with proj. split; lia.
   - exact HI.
+  - apply burst_st_inv; auto.
 Qed.
 
 Lemma step_inv d s o : d_okb d = true -> Inv d s -> Inv d (step d s o).
@@ -251,8 +275,8 @@ Lemma start_requires_full_price_l d s :
 Proof.
   intros Hfp Hlt. assert (A : affordable d s = false) by (unfold affordable; apply Z.leb_gt; lia).
   split.
-  - cbn [apply_op]. unfold add_player. rewrite Hfp, A. destruct (ingame s); [destruct (game_full s)|]; reflexivity.
-  - intros Hb. cbn [apply_ev]. rewrite Hfp, Hb, A. reflexivity.
+  - cbn [apply_op]. unfold start_st, add_player. rewrite Hfp, A. destruct (ingame s); [destruct (game_full s)|]; reflexivity.
+  - intros Hb. cbn [apply_ev]. unfold start_ev. rewrite Hfp, Hb, A. reflexivity.
 Qed.
 
 Lemma start_deducts_exactly_l d s :
@@ -262,7 +286,7 @@ Lemma start_deducts_exactly_l d s :
   /\ a_coins s' = a_coins s /\ a_earn s' = a_earn s.
 Proof.
   intros Hfp Hle Hpos Hfull. assert (A : affordable d s = true) by (unfold affordable; apply Z.leb_le; lia).
-  cbn zeta. cbn [apply_op]. unfold players. destruct (ingame s) eqn:Eg.
+  cbn zeta. cbn [apply_op]. unfold start_st, players. destruct (ingame s) eqn:Eg.
   - rewrite (Hfull eq_refl). unfold add_player. rewrite Hfp, A.
     autorewrite with proj. cbn [ingame npl a_paid a_coins a_earn set_credit with_audit set_audit join_game set_game].
     repeat split; lia.
@@ -280,7 +304,7 @@ Lemma start_changes_by_price_only_l d s :
   units (apply_op d s Start) = units s \/
   (d_upg d <= units s /\ units (apply_op d s Start) = units s - d_upg d).
 Proof.
-  intros Hfp H0. cbn [apply_op]. unfold add_player.
+  intros Hfp H0. cbn [apply_op]. unfold start_st, add_player.
   destruct (ingame s); [destruct (game_full s); [left; reflexivity|]|]; rewrite ?Hfp.
   - destruct (affordable d s) eqn:A; [|left; reflexivity]. unfold affordable in A. bd.
     right. autorewrite with proj. split; lia.
@@ -323,6 +347,30 @@ Proof.
   - change (a_earn s + 0 = a_earn s). lia.
 Qed.
 
+Lemma start_st_audit d s acc :
+  a_coins s = Z.of_nat (length acc) -> a_earn s = sumZ acc ->
+  a_coins (start_st d s) = Z.of_nat (length acc) /\ a_earn (start_st d s) = sumZ acc.
+Proof.
+  intros Hc He. unfold start_st.
+  destruct (ingame s); [destruct (game_full s); auto | destruct (fp s); [|destruct (affordable d s); auto]];
+    match goal with |- context [add_player d ?x] => destruct (add_player_audit d x) as [P Q]; rewrite P, Q end;
+    split; first [exact Hc | exact He].
+Qed.
+
+Lemma paid_join_audit d s : a_coins (paid_join d s) = a_coins s /\ a_earn (paid_join d s) = a_earn s.
+Proof.
+  split.
+  - change (a_coins s + 0 = a_coins s). lia.
+  - change (a_earn s + 0 = a_earn s). lia.
+Qed.
+
+Lemma iter_audit n f : (forall s, a_coins (f s) = a_coins s /\ a_earn (f s) = a_earn s) ->
+  forall s, a_coins (iter_st n f s) = a_coins s /\ a_earn (iter_st n f s) = a_earn s.
+Proof.
+  intros Hf. induction n as [|n IH]; intros s; cbn [iter_st]; [auto|].
+  destruct (IH (f s)) as [A B]. destruct (Hf s) as [C D]. split; congruence.
+Qed.
+
 Lemma audit_apply d s o acc :
   a_coins s = Z.of_nat (length acc) -> a_earn s = sumZ acc ->
   a_coins (apply_op d s o) = Z.of_nat (length (ledger_step d s o acc)) /\
@@ -339,9 +387,7 @@ Proof.
   - destruct (fp s); auto. destruct (nth_error (d_ev_units d) j); auto. split.
     + change (a_coins s + 0 = Z.of_nat (length acc)). lia.
     + change (a_earn s + 0 = sumZ acc). lia.
-  - destruct (ingame s); [destruct (game_full s); auto | destruct (fp s); [|destruct (affordable d s); auto]];
-    match goal with |- context [add_player d ?x] => destruct (add_player_audit d x) as [P Q]; rewrite P, Q end;
-    split; first [exact Hc | exact He].
+  - apply start_st_audit; auto.
   - unfold end_game.
     destruct (negb (ingame s)); auto. destruct (cpl s <? npl s); auto.
     destruct (cball s <? d_bpg d).
@@ -354,6 +400,12 @@ Proof.
   - auto.
   - auto.
   - split; reflexivity.
+  - unfold burst_st. destruct n as [|n]; auto.
+    destruct (ingame s); [|apply start_st_audit; auto].
+    destruct (game_full s); auto. destruct (fp s).
+    + destruct (iter_audit (S n) join_game (fun x => conj eq_refl eq_refl) s) as [P Q]. rewrite P, Q. auto.
+    + destruct (affordable d s); auto.
+      destruct (iter_audit (S n) (paid_join d) (paid_join_audit d) s) as [P Q]. rewrite P, Q. auto.
 Qed.
 
 Lemma ledger_inv d : forall ops s acc,
@@ -454,3 +506,51 @@ Lemma ex_earnings :
   ledger d (init d) ops [] = [8; 8; 8; 8; 8; 8; 8; 2] /\ a_earn (final d (init d) ops) = 58 /\
   units (final d (init d) ops) = 24.
 Proof. vm_compute. repeat split. Qed.
+
+(* ---- bursts of start presses --------------------------------------------------------------------- *)
+Lemma paid_join_iter d : 0 < d_upg d -> forall n s, Z.of_nat n * d_upg d <= units s ->
+  units (iter_st n (paid_join d) s) = units s - Z.of_nat n * d_upg d /\
+  npl (iter_st n (paid_join d) s) = npl s + Z.of_nat n /\
+  a_paid (iter_st n (paid_join d) s) = a_paid s + Z.of_nat n.
+Proof.
+  intros Hpos. induction n as [|n IH]; intros s Hu; cbn [iter_st].
+  - cbn [Z.of_nat]. repeat split; lia.
+  - assert (U : units (paid_join d s) = units s - d_upg d).
+    { unfold paid_join. autorewrite with proj. lia. }
+    assert (N : npl (paid_join d s) = npl s + 1) by reflexivity.
+    assert (P : a_paid (paid_join d s) = a_paid s + 1) by reflexivity.
+    destruct (IH (paid_join d s)) as (A & B & C); [rewrite U; lia|].
+    rewrite A, B, C, U, N, P. repeat split; lia.
+Qed.
+
+(* partial start gate for bursts: guard = the balance covers every press (or none) *)
+Lemma start_burst_partial_l d s n :
+  fp s = false -> ingame s = true -> game_full s = false -> 0 < d_upg d ->
+  (Z.of_nat (S n) * d_upg d <= units s ->
+     let s' := apply_op d s (StartBurst (S n)) in
+     units s' = units s - Z.of_nat (S n) * d_upg d /\ npl s' = npl s + Z.of_nat (S n) /\
+     a_paid s' = a_paid s + Z.of_nat (S n)) /\
+  (units s < d_upg d ->
+     apply_op d s (StartBurst (S n)) = s /\ e_not_enough (apply_ev d s (StartBurst (S n))) = Z.of_nat (S n)).
+Proof.
+  intros Hfp Hg Hfull Hpos. split.
+  - intros Hu. cbn zeta. cbn [apply_op]. unfold burst_st. rewrite Hg, Hfull, Hfp.
+    assert (A : affordable d s = true) by (unfold affordable; apply Z.leb_le; nia).
+    rewrite A. apply paid_join_iter; auto.
+  - intros Hu. assert (A : affordable d s = false) by (unfold affordable; apply Z.leb_gt; lia).
+    cbn [apply_op apply_ev]. unfold burst_st, start_ev. rewrite Hg, Hfull, Hfp, A. cbn [andb]. split; reflexivity.
+Qed.
+
+Lemma start_burst_refuted_l :
+  exists c ops, let d := derive c in let s := final d (init d) ops in
+    d_okb d = true /\ fp s = false /\ ingame s = true /\ game_full s = false /\ units s = d_upg d /\
+    let s' := apply_op d s (StartBurst 2) in
+    npl s' = npl s + 2 /\ units s - units s' < 2 * d_upg d.
+Proof. exists ex_cfg, [Coin 2; Start]. vm_compute. repeat split; try reflexivity; try (intro H; discriminate H). Qed.
+
+Lemma start_burst_example_l :
+  let d := derive ex_cfg in let s := final d (init d) [Coin 2; Coin 2; Start] in
+  fp s = false /\ ingame s = true /\ game_full s = false /\ 2 * d_upg d <= units s /\
+  npl (apply_op d s (StartBurst 2)) = 3 /\ units (apply_op d s (StartBurst 2)) = units s - 4 /\
+  e_not_enough (apply_ev d (init d) (StartBurst 3)) = 3.
+Proof. vm_compute. repeat split; try reflexivity; try (intro H; discriminate H). Qed.
